@@ -1479,7 +1479,7 @@ def run(ctx: core.Ctx) -> core.Report:
                 single_hits.setdefault(key, set()).add(repr(_strip(plan[0])))
     violations = []
     for key, what, scn, plan in raw:
-        if len(plan) == 2 and any(repr(_strip(m)) in single_hits.get(key, ()) for m in plan):
+        if len(plan) >= 2 and any(repr(_strip(m)) in single_hits.get(key, ()) for m in plan):
             continue        # already reported by the single manipulation it contains
         cls = "+".join(sorted({m["site"] for m in plan})) or "honest"      # coarse: one defect -> one key per site
         violations.append(core.Violation(f"{key}|{cls}", what, {"scenario": list(scn), "plan": [_strip(m) for m in plan],
